@@ -218,7 +218,8 @@ def check(tier, vseed, args):
                     for which in ("first", "second"):
                         for tk, tv in sorted(r[which][ii].items()):
                             if isinstance(tv, dict):
-                                for fld in ("same_after_later_builds", "same_when_built_again"):
+                                for fld in ("same_after_later_builds", "same_when_built_again",
+                                            "loaded_same_conflicts", "same"):
                                     if tv.get(fld) is False:
                                         diffs.append({"shard": si, "item": ii, "hashseed": hs,
                                                       "construction": which,
@@ -311,7 +312,8 @@ def _differs(item, hashseeds, base, full=False):
         for which in ("first", "second"):
             for tk, tv in sorted(r[which][0].items()):
                 if isinstance(tv, dict):
-                    for fld in ("same_after_later_builds", "same_when_built_again"):
+                    for fld in ("same_after_later_builds", "same_when_built_again",
+                                "loaded_same_conflicts", "same"):
                         if tv.get(fld) is False:
                             return (f"{tk}.{fld}", hs, which, a["first"][0], r[which][0])
             d = diff_item(a["first"][0], r[which][0])
